@@ -314,7 +314,8 @@ def copyWithDict (doc : Fields) (fields : Fields) : R Fields := do
   let dc ← baseCopy doc plain idv
   applyProjOps doc ops dc
 
-/-- `Collection._copy_only_fields(doc, fields, dict)`; `fields = None` is `.null` -/
+/-- `Collection._copy_only_fields(doc, fields, dict)`; `fields = None` is `.null`.  The code works
+    on `dict(fields)` (collection.py), so the caller's object is never touched: nothing to model. -/
 def copyOnlyFields (d : Val) (p : Val) : R Val :=
   match d with
   | .doc doc =>
@@ -328,19 +329,6 @@ def copyOnlyFields (d : Val) (p : Val) : R Val :=
       (copyWithDict doc fields).map .doc
     | _ => unmodelled
   | _ => unmodelled
-
-/-- what the caller's projection dict looks like after a successful call: `_id` is popped and
-    put back at the end (added when it was absent), operator fields are moved behind it -/
-def projArgAfter (p : Val) : Val :=
-  match p with
-  | .doc [] => p
-  | .doc fields =>
-    let idv := (dget "_id" fields).getD (.int 1)
-    let rest := derase "_id" fields
-    let ops := rest.filter (fun kv => kv.2.isDoc)
-    let plain := rest.filter (fun kv => !kv.2.isDoc)
-    .doc (plain ++ [("_id", idv)] ++ ops)
-  | _ => p
 
 /-! ### selection then projection (`_iter_documents`, `_get_dataset`, `find_one`) -/
 
